@@ -7,7 +7,7 @@ from dataflows.helpers.extended_json import ejson
 
 PROP = 'C07'
 PROPS_V = 'Props/C07.v'
-COQ_IMPORTS = ['Base.Str', 'Base.Value', 'IO.EJson', 'IO.EJsonInst', 'IO.JsonText', 'IO.Stream']
+COQ_IMPORTS = ['Base.Str', 'Base.Value', 'IO.EJson', 'IO.EJsonInst', 'IO.JsonText', 'IO.SortKeys', 'IO.Stream']
 RULE = ('cases = (a) values of every type the extended JSON claims (decimals, dates, times, naive/zone-aware datetimes with '
         'any UTC offset, durations, nested arrays/objects, unicode) through ejson.dumps/loads, (b) packages streamed to a '
         'file and read back, (c) run/delete histories of flows with one or two chained checkpoints, with a fresh Flow '
@@ -235,7 +235,9 @@ def run_impl(case):
         except Exception as e:
             return {'error': err_code(e), 'exc': '%s: %s' % (type(e).__name__, e)}
         text = ejson.dumps(v, sort_keys=True, ensure_ascii=True)
-        return {'back': enc(back), 'same': type_exact_eq(v, back), 'text': text}
+        # the same value as the encoder writes it with the keys in the order the row has them: input of the model's sorting
+        plain = ejson.dumps(v, sort_keys=False, ensure_ascii=True)
+        return {'back': enc(back), 'same': type_exact_eq(v, back), 'text': text, 'plain': plain}
     if k == 'stream':
         f = os.path.join(scratch(), 's_%s.ndjson' % digest(case))
         res = [{'name': 'r%d' % i, 'fields': [{'name': 'a', 'type': 'integer'}, {'name': 'v', 'type': 'any'}], 'rows': rows_dec(rows)}
@@ -420,6 +422,11 @@ def coq_term(case, out):
         if cj is not None:
             t += ' && str_eqb (jprint %s) %s && match jparse %s with Some j => json_eqb j %s | None => false end' % (
                 cj, cstr(out['text']), cstr(out['text'] + '\n'), cj)
+            # sort_keys=True is the model's sorting: the tree in the row's own key order, sorted and printed by the model,
+            # is the text the real encoder wrote
+            cu = cjson(json.loads(out['plain'], object_pairs_hook=lambda kv: ('obj', kv))) if 'plain' in out else None
+            if cu is not None:
+                t += ' && str_eqb (sorted_text %s) %s' % (cu, cstr(out['text']))
         return t
     if k == 'stream':
         shape = clist([clist(['tt'] * len(r)) for r in case['pkg']])
